@@ -319,6 +319,7 @@ class Program:
         self.bodies = {}
         self.dups = []
         for u in self.units:
+            u.program = self
             for p, b in u.bodies.items():
                 if p in self.bodies:
                     self.dups.append(p)
